@@ -240,15 +240,17 @@ Qed.
    with the listen address :8443 the cookie of "https://keymaster.example:8443" is served, the one of
    "https://keymaster.example" (proper prefix) and of "...:84430" are refused.  A main-CA certificate
    with an empty common name: 403 with or without a valid cookie; an address-restricted one accepted by
-   the address test: the cookie decides. *)
+   the address test: the cookie decides.  A cookie without exp claim is refused, one without nbf claim is
+   served, one that expires in 2100 is served where its factor is listed. *)
 Definition xclass (cfg : N) (i : nat) : N := run_xcase (cfg, nth i xshapes default_shape).
 Example c01_combined_nonvacuous :
-  map (xclass 36) [115; 118; 127; 144; 0; 3]%nat = [0; 0; 0; 0; 0; 6] /\
-  map (xclass 1) [115; 118; 127; 144]%nat = [6; 6; 6; 6] /\
-  n_xshapes = 1457 /\ map (xclass 36) [1361; 1447; 1372; 1451]%nat = [6; 0; 0; 6] /\
-  map (xclass 36) [920; 923; 1035; 1038; 1153]%nat = [0; 0; 0; 6; 6] /\
+  map (xclass 36) [127; 130; 139; 159; 0; 3]%nat = [0; 0; 0; 0; 0; 6] /\
+  map (xclass 1) [127; 130; 139; 159]%nat = [6; 6; 6; 6] /\
+  n_xshapes = 1589 /\ map (xclass 36) [1493; 1579; 1504; 1583]%nat = [6; 0; 0; 6] /\
+  map (xclass 36) [1016; 1019; 1143; 1146; 1273]%nat = [0; 0; 0; 6; 6] /\
+  map (xclass 36) [18; 19; 20]%nat = [0; 6; 6] /\ map (xclass 4) [20]%nat = [0] /\
   length (near_misses 1) = 19%nat /\ ~ In (case_issuer 1) (near_misses 1) /\ ~ In (case_issuer 0) (near_misses 0).
 Proof.
-  split; [vm_compute; reflexivity|]. split; [vm_compute; reflexivity|]. split; [reflexivity|]. split; [vm_compute; reflexivity|]. split; [vm_compute; reflexivity|]. split; [reflexivity|].
+  split; [vm_compute; reflexivity|]. split; [vm_compute; reflexivity|]. split; [reflexivity|]. split; [vm_compute; reflexivity|]. split; [vm_compute; reflexivity|]. split; [vm_compute; reflexivity|]. split; [vm_compute; reflexivity|]. split; [reflexivity|].
   split; intro H; vm_compute in H; repeat (destruct H as [H|H]; [discriminate|]); exact H.
 Qed.
